@@ -43,3 +43,148 @@ package plugin
 //@ lemma L16_deadline [C16]: forall(e, "Int", forall(l, "Int", forall(n, "Int", n >= e + l ==> remaining(e, l, n) == 0)))
 //@ lemma L16_before [C16]: forall(e, "Int", forall(l, "Int", forall(n, "Int", n < e + l ==> remaining(e, l, n) == e + l - n)))
 //@ lemma L16_pref_le_valid [C16]: forall(e, "Int", forall(p, "Int", forall(v, "Int", forall(n, "Int", p <= v ==> remaining(e, p, n) <= remaining(e, v, n)))))
+
+// ---------------------------------------------------------------------------
+// Plugin.Apply family (C01 content and order, C03 ranges, C04 header untouched, C17 safety)
+
+//@ macro optRank(t) = ite(t == tagOf("*ndp.PrefixInformation"), 1, ite(t == tagOf("*ndp.RouteInformation"), 2, ite(t == tagOf("*ndp.RecursiveDNSServer"), 3, ite(t == tagOf("*ndp.DNSSearchList"), 4, ite(t == tagOf("*ndp.MTU"), 5, ite(t == tagOf("*ndp.LinkLayerAddress"), 6, ite(t == tagOf("*ndp.CaptivePortal"), 7, ite(t == tagOf("*ndp.PREF64"), 8, 0))))))))
+//@ macro pluginRank(t) = ite(t == tagOf("*plugin.Prefix"), 1, ite(t == tagOf("*plugin.Route"), 2, ite(t == tagOf("*plugin.RDNSS"), 3, ite(t == tagOf("*plugin.DNSSL"), 4, ite(t == tagOf("*plugin.MTU"), 5, ite(t == tagOf("*plugin.LLA"), 6, ite(t == tagOf("*plugin.CaptivePortal"), 7, ite(t == tagOf("*plugin.PREF64"), 8, 0))))))))
+
+//@ macro raHeaderEq(x, y) = x.CurrentHopLimit == y.CurrentHopLimit && x.ManagedConfiguration == y.ManagedConfiguration && x.OtherConfiguration == y.OtherConfiguration && x.MobileIPv6HomeAgent == y.MobileIPv6HomeAgent && x.RouterSelectionPreference == y.RouterSelectionPreference && x.NeighborDiscoveryProxy == y.NeighborDiscoveryProxy && x.RouterLifetime == y.RouterLifetime && x.ReachableTime == y.ReachableTime && x.RetransmitTimer == y.RetransmitTimer
+
+// Type invariants of configured plugins (established by the parser, C02/C03).
+//@ macro prefixOK(p) = p != nil && lifetimeOK(p.ValidLifetime) && lifetimeOK(p.PreferredLifetime) && 0 <= pfxBits(p.Prefix) && (p.Deprecated ==> p.Epoch != timeZero && timeSane(p.Epoch) && p.TimeNow != nil) && (p.Auto ==> p.Addrs != nil)
+//@ macro routeOK(r) = r != nil && lifetimeOK(r.Lifetime) && 0 <= pfxBits(r.Prefix) && (r.Deprecated ==> r.Epoch != timeZero && timeSane(r.Epoch) && r.TimeNow != nil) && (r.Auto ==> r.Routes != nil)
+//@ macro rdnssOK(r) = r != nil && lifetimeOK(r.Lifetime) && (r.Auto ==> r.Addrs != nil)
+//@ macro dnsslOK(d) = d != nil && lifetimeOK(d.Lifetime)
+//@ macro pluginOK(s) = pluginRank(dyn(s)) >= 1 && s.val > 0 && (isType(s, "*plugin.Prefix") ==> prefixOK(as(s, "*plugin.Prefix"))) && (isType(s, "*plugin.Route") ==> routeOK(as(s, "*plugin.Route"))) && (isType(s, "*plugin.RDNSS") ==> rdnssOK(as(s, "*plugin.RDNSS"))) && (isType(s, "*plugin.DNSSL") ==> dnsslOK(as(s, "*plugin.DNSSL"))) && (isType(s, "*plugin.CaptivePortal") ==> as(s, "*plugin.CaptivePortal").Portal != nil) && (isType(s, "*plugin.PREF64") ==> as(s, "*plugin.PREF64").Inner != nil) && (isType(s, "*plugin.MTU") ==> 0 <= star(as(s, "*plugin.MTU")) && star(as(s, "*plugin.MTU")) <= 4294967295)
+
+// What config.Interface.RouterAdvertisement may assume of any plugin.
+//@ iface plugin.Plugin.Apply(self, ra) (err)
+//@   requires P1: ra != nil && pluginOK(self)
+//@   assigns heap(ndp.RouterAdvertisement) at ra, new mem(ndp.Option), new heap(ndp.PrefixInformation), new heap(ndp.RouteInformation), new heap(ndp.RecursiveDNSServer), new heap(ndp.DNSSearchList), new heap(ndp.MTU), new heap(ndp.LinkLayerAddress), new mem(netip.Addr), new mem(netip.Prefix), new mem(system.IP), new mem(system.Route), ghost.clockRead, ghost.lastAddrs
+//@   ensures A1: raHeaderEq(star(ra), old(star(ra)))
+//@   ensures A2: len(ra.Options) >= old(len(ra.Options)) && forall(j, 0, old(len(ra.Options)), ra.Options[j] == old(ra.Options[j]))
+//@   ensures A3: forall(j, old(len(ra.Options)), len(ra.Options), optRank(dyn(ra.Options[j])) == pluginRank(dyn(self)) && ra.Options[j].val > 0)
+//@   ensures A4: err != nil ==> len(ra.Options) == old(len(ra.Options))
+//@ iface plugin.Plugin.Name(self) (s)
+//@ iface plugin.Plugin.String(self) (s)
+
+//@ func (*MTU).Apply
+//@   opt refines iface:plugin.Plugin.Apply
+//@   opt refinetags [C01,C04]
+//@   requires P1: m != nil && ra != nil && 0 <= star(m) && star(m) <= 4294967295
+//@   assigns heap(ndp.RouterAdvertisement) at ra, new mem(ndp.Option), new heap(ndp.MTU)
+//@   ensures E1 [C01]: result == nil && len(ra.Options) == old(len(ra.Options)) + 1
+//@   ensures E2 [C01]: isType(ra.Options[old(len(ra.Options))], "*ndp.MTU") && as(ra.Options[old(len(ra.Options))], "*ndp.MTU").MTU == star(m)
+//@   ensures E3 [C01]: star(m) == old(star(m))
+//@   opt safety [C01,C17]
+//@   opt frame [C01]
+
+//@ func (*CaptivePortal).Apply
+//@   opt refines iface:plugin.Plugin.Apply
+//@   opt refinetags [C01,C04]
+//@   requires P1: cp != nil && ra != nil && cp.Portal != nil
+//@   assigns heap(ndp.RouterAdvertisement) at ra, new mem(ndp.Option)
+//@   ensures E1 [C01]: result == nil && len(ra.Options) == old(len(ra.Options)) + 1
+//@   ensures E2 [C01]: ra.Options[old(len(ra.Options))] == iface(cp.Portal, "*ndp.CaptivePortal")
+//@   opt safety [C01,C17]
+//@   opt frame [C01]
+
+//@ func (*PREF64).Apply
+//@   opt refines iface:plugin.Plugin.Apply
+//@   opt refinetags [C01,C04]
+//@   requires P1: p != nil && ra != nil && p.Inner != nil
+//@   assigns heap(ndp.RouterAdvertisement) at ra, new mem(ndp.Option)
+//@   ensures E1 [C01]: result == nil && len(ra.Options) == old(len(ra.Options)) + 1
+//@   ensures E2 [C01]: ra.Options[old(len(ra.Options))] == iface(p.Inner, "*ndp.PREF64")
+//@   opt safety [C01,C17]
+//@   opt frame [C01]
+
+//@ func (*DNSSL).Apply
+//@   opt refines iface:plugin.Plugin.Apply
+//@   opt refinetags [C01,C04]
+//@   requires P1: d != nil && ra != nil
+//@   assigns heap(ndp.RouterAdvertisement) at ra, new mem(ndp.Option), new heap(ndp.DNSSearchList)
+//@   ensures E1 [C01]: result == nil && len(ra.Options) == old(len(ra.Options)) + 1
+//@   ensures E2 [C01]: isType(ra.Options[old(len(ra.Options))], "*ndp.DNSSearchList") && as(ra.Options[old(len(ra.Options))], "*ndp.DNSSearchList").Lifetime == d.Lifetime && as(ra.Options[old(len(ra.Options))], "*ndp.DNSSearchList").DomainNames == d.DomainNames
+//@   opt safety [C01,C17]
+//@   opt frame [C01]
+
+//@ func (*LLA).Apply
+//@   opt refines iface:plugin.Plugin.Apply
+//@   opt refinetags [C01,C04]
+//@   requires P1: l != nil && ra != nil
+//@   assigns heap(ndp.RouterAdvertisement) at ra, new mem(ndp.Option), new heap(ndp.LinkLayerAddress)
+//@   ensures E1 [C01]: result == nil && len(ra.Options) == old(len(ra.Options)) + b2i(l.Addr != nil)
+//@   ensures E2 [C01]: l.Addr != nil ==> isType(ra.Options[old(len(ra.Options))], "*ndp.LinkLayerAddress") && as(ra.Options[old(len(ra.Options))], "*ndp.LinkLayerAddress").Direction == 1 && as(ra.Options[old(len(ra.Options))], "*ndp.LinkLayerAddress").Addr == l.Addr
+//@   opt safety [C01,C17]
+//@   opt frame [C01]
+
+// ---- Prefix -----------------------------------------------------------------
+
+//@ macro ipOK(a) = 0 <= pfxBits(a.Address) && pfxValid(a.Address)
+//@ funcfield plugin.Prefix.Addrs() (addrs, err)
+//@   assigns new mem(system.IP)
+//@   ensures A1: err == nil ==> forall(j, 0, len(addrs), ipOK(addrs[j]))
+//@ funcfield plugin.RDNSS.Addrs() (addrs, err)
+//@   assigns new mem(system.IP)
+//@   ensures A1: err == nil ==> forall(j, 0, len(addrs), ipOK(addrs[j]))
+//@ funcfield plugin.Route.Routes() (routes, err)
+//@   assigns new mem(system.Route)
+//@   ensures A1: err == nil ==> forall(j, 0, len(routes), 0 <= pfxBits(routes[j].Prefix) && pfxValid(routes[j].Prefix) && pfxMasked(routes[j].Prefix) == routes[j].Prefix)
+
+//@ macro piMatches(o, p, pfx, valid, pref) = o.PrefixLength == pfxBits(pfx) && o.OnLink == p.OnLink && o.AutonomousAddressConfiguration == p.Autonomous && o.ValidLifetime == valid && o.PreferredLifetime == pref && o.Prefix == pfxAddr(pfx)
+//@ macro isPI(x) = isType(x, "*ndp.PrefixInformation") && x.val > 0
+//@ macro prefixLifetimeV(p, now) = ite(p.Deprecated, remaining(p.Epoch, p.ValidLifetime, now), p.ValidLifetime)
+//@ macro prefixLifetimeP(p, now) = ite(p.Deprecated, remaining(p.Epoch, p.PreferredLifetime, now), p.PreferredLifetime)
+
+//@ func (*Prefix).apply
+//@   requires P1: prefixOK(p) && ra != nil && forall(k, 0, len(prefixes), 0 <= pfxBits(prefixes[k]))
+//@   assigns heap(ndp.RouterAdvertisement) at ra, new mem(ndp.Option), new heap(ndp.PrefixInformation), ghost.clockRead
+//@   loop 1 invariant I1 [C01]: len(opts) == rangeindex + 1 && 0 <= rangeindex + 1 && rangeindex + 1 <= len(prefixes)
+//@   loop 1 invariant I2 [C01]: forall(k, 0, len(opts), isPI(opts[k]) && opts[k].val < brk && piMatches(as(opts[k], "*ndp.PrefixInformation"), p, prefixes[k], valid, pref))
+//@   loop 1 invariant I3 [C01]: star(ra) == old(star(ra)) && fresh(opts)
+//@   ensures E1 [C01,C13]: len(ra.Options) == old(len(ra.Options)) + len(prefixes)
+//@   ensures E2 [C01,C04]: raHeaderEq(star(ra), old(star(ra))) && forall(j, 0, old(len(ra.Options)), ra.Options[j] == old(ra.Options[j]))
+//@   ensures E3 [C01,C13]: forall(j, old(len(ra.Options)), len(ra.Options), isPI(ra.Options[j]) && piMatches(as(ra.Options[j], "*ndp.PrefixInformation"), p, prefixes[j - old(len(ra.Options))], prefixLifetimeV(p, ghost.clockRead), prefixLifetimeP(p, ghost.clockRead)))
+//@   opt safety [C01,C17]
+//@   opt frame [C01]
+
+//@ ghost var lastAddrs Slice
+//@ macro member(s, q) = exists(km, 0, len(s), s[km] == q)
+// C13: an address contributes a prefix iff it is IPv6, not link-local, has the
+// stanza's prefix length and is neither temporary nor tentative.
+//@ macro elig13(a, bits) = !addrIs4(pfxAddr(a.Address)) && !addrIsLinkLocalUnicast(pfxAddr(a.Address)) && pfxBits(a.Address) == bits && !a.Temporary && !a.Tentative
+
+//@ func (*Prefix).current$1
+//@   ensures R1 [C13]: result == addrCompare(pfxAddr(a), pfxAddr(b))
+//@   opt pure applyCmpPfx
+
+//@ func (*Prefix).current
+//@   ghost local addrsErr Iface
+//@   requires P1: p != nil && p.Addrs != nil && 0 <= pfxBits(p.Prefix)
+//@   assigns new mem(netip.Prefix), new mem(system.IP), ghost.lastAddrs
+//@   at call Addrs() (as, aerr): ghost.lastAddrs = as ; ghost.addrsErr = aerr
+//@   loop 1 invariant J0 [C13]: 0 <= rangeindex + 1 && rangeindex + 1 <= len(addrs) && seen != nil && ghost.lastAddrs == addrs && forall(j, 0, len(addrs), ipOK(addrs[j])) && (prefixes == nil || fresh(prefixes))
+//@   loop 1 invariant J1 [C13]: forall(k, 0, len(prefixes), has(seen, prefixes[k]))
+//@   loop 1 invariant J2 [C13]: forall(q, "Pfx", has(seen, q) ==> member(prefixes, q))
+//@   loop 1 invariant J3 [C13]: forall(k, 0, len(prefixes), exists(j, 0, rangeindex + 1, elig13(addrs[j], pfxBits(p.Prefix)) && pfxMasked(addrs[j].Address) == prefixes[k]))
+//@   loop 1 invariant J4 [C13]: forall(j, 0, rangeindex + 1, elig13(addrs[j], pfxBits(p.Prefix)) ==> has(seen, pfxMasked(addrs[j].Address)))
+//@   loop 1 invariant J5 [C13]: forall(k1, 0, len(prefixes), forall(k2, k1 + 1, len(prefixes), prefixes[k1] != prefixes[k2]))
+//@   loop 1 invariant J6 [C13]: forall(k, 0, len(prefixes), pfxValid(prefixes[k]) && pfxBits(prefixes[k]) == pfxBits(p.Prefix))
+//@   ensures E0 [C01,C13]: result1 == nil ==> forall(k, 0, len(result0), 0 <= pfxBits(result0[k]))
+//@   ensures E1 [C13]: (ghost.addrsErr != nil) == (result1 != nil) && (result1 != nil ==> result0 == nil)
+//@   ensures E2 [C13]: result1 == nil ==> forall(q, "Pfx", member(result0, q) <==> exists(j, 0, len(ghost.lastAddrs), elig13(typed(ghost.lastAddrs, "[]system.IP")[j], pfxBits(p.Prefix)) && pfxMasked(typed(ghost.lastAddrs, "[]system.IP")[j].Address) == q))
+//@   ensures E3 [C13]: result1 == nil ==> forall(a, 0, len(result0), forall(b, a + 1, len(result0), addrCompare(pfxAddr(result0[a]), pfxAddr(result0[b])) < 0))
+//@   opt safety [C13,C17]
+//@   opt frame [C13]
+
+//@ func (*Prefix).Apply
+//@   opt refines iface:plugin.Plugin.Apply
+//@   opt refinetags [C01,C04]
+//@   requires P1: prefixOK(p) && ra != nil
+//@   assigns heap(ndp.RouterAdvertisement) at ra, new mem(ndp.Option), new heap(ndp.PrefixInformation), new mem(netip.Prefix), new mem(system.IP), ghost.clockRead, ghost.lastAddrs
+//@   ensures E1 [C01]: !p.Auto ==> result == nil && len(ra.Options) == old(len(ra.Options)) + 1 && isPI(ra.Options[old(len(ra.Options))]) && piMatches(as(ra.Options[old(len(ra.Options))], "*ndp.PrefixInformation"), p, p.Prefix, prefixLifetimeV(p, ghost.clockRead), prefixLifetimeP(p, ghost.clockRead))
+//@   opt safety [C01,C17]
+//@   opt frame [C01]
